@@ -337,9 +337,16 @@ def eval_randgraph(h, fn, count, edge, connectivity, ensurelink, rmode, smode):
             raise Raised(B.mkexc("IndexError", "Cannot choose from an empty sequence"))
         return items[0] if rmode == "lo" else items[-1]
 
+    bits = [0]
+
+    def getrandbits(I, k):
+        bits[0] += 1
+        return (bits[0] * 2654435761 + 12345) % (1 << k) if isinstance(k, int) and k > 0 else 0
+
     h.w.ext_overrides["random.choice"] = Builtin("random.choice", choice)
     h.w.ext_overrides["random.randint"] = Builtin("random.randint", randint)
     h.w.ext_overrides["random.sample"] = Builtin("random.sample", sample)
+    h.w.ext_overrides["random.getrandbits"] = Builtin("random.getrandbits", getrandbits)
     h.reset()
     h.settle()
     kw = {"count": count, "edge": h.cls(edge), "ensurelink": ensurelink}
@@ -347,6 +354,61 @@ def eval_randgraph(h, fn, count, edge, connectivity, ensurelink, rmode, smode):
         kw["connectivity"] = connectivity
     out = h.call(fn, **kw)
     return out, samples
+
+
+def eval_reproducible(h, fn, count, edge, connectivity, ensurelink, runs=2):
+    """random.seed(s); randgraph(...) - twice in one interpreter state (nothing is reset between the two runs: whatever the first run
+    left in module- or class-level state is there for the second).  The random module is ONE stream: the n-th draw after seeding is a
+    fixed function of n and of the draw's own arguments, whichever function makes it - so a run that consumes the stream differently
+    (an extra draw, a skipped one) sees other values from then on, exactly as with the real generator."""
+    B = h.w.B
+    pos = [0]
+
+    def draw():
+        pos[0] += 1
+        return pos[0]
+
+    def randint(I, a, b):
+        if not (isinstance(a, int) and isinstance(b, int)):
+            raise Unknown("randint bounds not concrete")
+        if a > b:
+            raise Raised(B.mkexc("ValueError", "empty range for randrange()"))
+        return a + (draw() * 7 + 3) % (b - a + 1)
+
+    def sample(I, pop, k, **kw):
+        items = I.iterate(pop)
+        if not isinstance(k, int) or isinstance(k, bool):
+            raise Raised(B.mkexc("TypeError", "sample size must be an integer"))
+        if not 0 <= k <= len(items):
+            raise Raised(B.mkexc("ValueError", "Sample larger than population or is negative"))
+        off = (draw() * 5 + 1) % len(items) if items else 0
+        rot = items[off:] + items[:off]
+        return Seq(rot[:k], "list")
+
+    def choice(I, seq):
+        items = I.iterate(seq)
+        if not items:
+            raise Raised(B.mkexc("IndexError", "Cannot choose from an empty sequence"))
+        return items[(draw() * 3 + 2) % len(items)]
+
+    def getrandbits(I, k):
+        return (draw() * 2654435761 + 12345) % (1 << k) if isinstance(k, int) and k > 0 else 0
+
+    h.w.ext_overrides["random.choice"] = Builtin("random.choice", choice)
+    h.w.ext_overrides["random.randint"] = Builtin("random.randint", randint)
+    h.w.ext_overrides["random.sample"] = Builtin("random.sample", sample)
+    h.w.ext_overrides["random.getrandbits"] = Builtin("random.getrandbits", getrandbits)
+    h.reset()
+    h.settle()
+    kw = {"count": count, "edge": h.cls(edge), "ensurelink": ensurelink}
+    if connectivity is not None:
+        kw["connectivity"] = connectivity
+    shapes = []
+    for _ in range(runs):
+        pos[0] = 0          # random.seed(s)
+        h.w.steps = 0
+        shapes.append(shape_of(h.call(fn, **kw)))
+    return shapes
 
 
 def _eval_jobs(arg):
@@ -487,6 +549,30 @@ def run(ctx):
                           f"randgraph(count={count}, edge={edge}, connectivity={conn}, ensurelink={ens}) with randint at its {'upper' if rmode == 'hi' else 'lower'} end: {why}",
                           replay=f"import random\nfrom edgegraph.builder.randgraph import randgraph\nfor seed in range(200):\n    random.seed(seed)\n    u = randgraph(count={count}, connectivity={conn}, ensurelink={ens})\n    assert len(u.vertices) == {count}\nprint('ok')")
     res.rule("RANDGRAPH-EVAL", n)
+    # ---- "seeding the random module makes the result reproducible": seed, build, seed again, build again - in one interpreter state
+    hr = H(ctx.src, ["edgegraph.builder.randgraph", "edgegraph.builder.adjlist", "edgegraph.builder.explicit"])
+    fnr = hr.fn(FN)
+    nrep = 0
+    for count, edge, conn, ens in itertools.product((1, 2, 3, 5, 8), ("DirectedEdge", "UnDirectedEdge"), (None, 0.5), (True, False)):
+        try:
+            hr.w.set_order = "insertion"
+            shapes = eval_reproducible(hr, fnr, count, edge, conn, ens, runs=3 if count <= 3 else 2)
+        except Unknown as u:
+            res.note(f"reproducibility of randgraph(count={count}, {edge}, connectivity={conn}, ensurelink={ens}) not evaluated: {u}")
+            continue
+        finally:
+            hr.w.set_order = "fork"
+        nrep += 1
+        ok = all(sh == shapes[0] for sh in shapes[1:])
+        res.ob(ok, sig=("reproducible", count, edge, conn, ens))
+        if not ok:
+            k_ = next(i for i, sh in enumerate(shapes) if sh != shapes[0])
+            res.violation("REPRODUCIBLE", FN, f"same-seed-again-in-one-interpreter,ensurelink={ens},connectivity={'default' if conn is None else 'given'}",
+                          f"random.seed(s); randgraph(count={count}, edge={edge}, connectivity={conn}, ensurelink={ens}) evaluated {len(shapes)} times in one interpreter state with the random stream rewound before each run "
+                          f"(the n-th draw after seeding has the same value each time): run 1 gives {shapes[0]}, run {k_ + 1} gives {shapes[k_]} - seeding the random module does not make the result reproducible",
+                          replay=f"import random\nfrom edgegraph.builder.randgraph import randgraph\nfrom edgegraph.structure import {edge}\ndef shape(u): return [(v.i, [(l.v1.i, l.v2.i) for l in v.links]) for v in u.vertices]\n"
+                                 f"for s in range(50):\n    random.seed(s); g1 = shape(randgraph(count={count}, edge={edge}, ensurelink={ens}))\n    random.seed(s); g2 = shape(randgraph(count={count}, edge={edge}, ensurelink={ens}))\n    assert g1 == g2, s\nprint('ok')")
+    res.rule("REPRODUCIBLE", nrep)
     det(ctx, res, prog)
     res.bounded_only = not proved
     res.extra["bounds_proved_for_every_count"] = proved
